@@ -71,7 +71,7 @@ def build_case(P, Q, keyQ, depth, cap, plans=(), keyP=key_identity, temporal=Tru
     for a in sP.actions:
         k = 1
         for pp in a.parameters:
-            k *= len(list(P.objects(pp.type)))
+            k *= len(list(P.objects(pp.type))) if pp.type.is_user_type() else 0     # numeric parameters: not enumerated
         ninsts += k
     info = {"metricP": kP, "metricQ": kQ, "ids": shared.table(), "ninsts": ninsts,
             "durative": len(sP.dactions), "timed_effects": len(P.timed_effects), "plans": len(pcs),
@@ -159,7 +159,7 @@ class PyOracle:
                     return {"confirmed": True, "kind": "objects-differ", "type": t.name, "orig": op, "reread": oq}
         insts = []
         for a in P.actions:
-            if not hasattr(a, "preconditions"):
+            if not hasattr(a, "preconditions") or any(not pp.type.is_user_type() for pp in a.parameters):
                 continue
             for args in product(*[list(P.objects(pp.type)) for pp in a.parameters]):
                 insts.append((a, args))
